@@ -2,7 +2,7 @@
    driver) -> one output line.  All canonical printing is done here, in Coq, so that the OCaml
    side is a trivial read/print loop. *)
 From VF Require Import Base.Prelude Model.Reader Model.InfoModelDefs.
-From VF Require Import Base.IPText Model.Layout Model.JsonPieces Model.Nf5 Model.Flow Model.Cache Model.Ipfix Model.Nf9 Model.MarshalFlow Base.Json Model.Packet Model.Sflow.
+From VF Require Import Base.IPText Model.Layout Model.JsonPieces Model.Nf5 Model.Flow Model.Cache Model.Ipfix Model.Nf9 Model.MarshalFlow Base.Json Model.Packet Model.Sflow Model.CacheFile.
 From VF Require Gen.InfoModel Gen.Layouts Gen.JsonPieces.
 
 Inductive tok := TBytes (b : bytes) | TInt (z : Z) | TSym (s : bytes).
@@ -124,21 +124,21 @@ Definition g_ipfix_marshal (m : ipfix_msg) : bytes :=
                (i_agent m) (i_header m) (i_sets m).
 
 (* one datagram: FAIL | MSG nf=<k> H:<hdr> N:<#sets> S:<sets> J:x<hex json> | J:- (nothing published) *)
-Definition show_ipfix_result (d : dresult ipfix_msg) : bytes :=
+Definition show_ipfix_result (wj : bool) (d : dresult ipfix_msg) : bytes :=
   match d with
   | DFail => s2l "FAIL"
   | DMsg m nf =>
       s2l "MSG nf=" ++ show_Z nf ++ s2l " H:" ++ show_named (i_header m)
       ++ s2l " N:" ++ show_Z (len (i_sets m)) ++ s2l " S:" ++ show_sets (i_sets m)
-      ++ s2l " J:" ++ (match i_sets m with [] => s2l "-" | _ => show_bytes (g_ipfix_marshal m) end)
+      ++ (if wj then s2l " J:" ++ (match i_sets m with [] => s2l "-" | _ => show_bytes (g_ipfix_marshal m) end) else [])
   end.
 
 (* a history: <addr> <payload> <addr> <payload> ... decoded in order from the empty cache *)
-Fixpoint run_ipfix_history {C} (ops : cache_ops C) (c : C) (args : list tok) : list bytes :=
+Fixpoint run_ipfix_history {C} (wj : bool) (ops : cache_ops C) (c : C) (args : list tok) : list bytes :=
   match args with
   | TBytes addr :: TBytes p :: rest =>
       match g_ipfix_decode ops c addr p with
-      | Ok (c', d) => show_ipfix_result d :: run_ipfix_history ops c' rest
+      | Ok (c', d) => show_ipfix_result wj d :: run_ipfix_history wj ops c' rest
       | Err _ => [s2l "ERR?"]
       | Panic => [s2l "PANIC"]
       | Hang => [s2l "HANG"]
@@ -148,36 +148,36 @@ Fixpoint run_ipfix_history {C} (ops : cache_ops C) (c : C) (args : list tok) : l
 
 Definition hist_sep : bytes := s2l " ## ".
 Definition cmd_ipfixh (args : list tok) : bytes :=
-  intercalate hist_sep (run_ipfix_history cc_ops empty_ccache args).
+  intercalate hist_sep (run_ipfix_history true cc_ops empty_ccache args).
 (* the same history against the ABSTRACT cache keyed by the full (address, id) *)
 Definition cmd_ipfixh_abs (args : list tok) : bytes :=
-  intercalate hist_sep (run_ipfix_history am_ops [] args).
+  intercalate hist_sep (run_ipfix_history true am_ops [] args).
 
 Definition g_nf9_decode {C} (ops : cache_ops C) := nf9_decode ops driver_im Gen.Layouts.nf9_header_layout.
 Definition g_nf9_marshal (m : nf9_msg) : bytes :=
   flow_marshal false Gen.JsonPieces.nf9_agent_pieces Gen.JsonPieces.nf9_header_pieces
                (n9_agent m) (n9_header m) (n9_sets m).
-Definition show_nf9_result (d : dresult nf9_msg) : bytes :=
+Definition show_nf9_result (wj : bool) (d : dresult nf9_msg) : bytes :=
   match d with
   | DFail => s2l "FAIL"
   | DMsg m nf =>
       s2l "MSG nf=" ++ show_Z nf ++ s2l " H:" ++ show_named (n9_header m)
       ++ s2l " N:" ++ show_Z (len (n9_sets m)) ++ s2l " S:" ++ show_sets (n9_sets m)
-      ++ s2l " J:" ++ (match n9_sets m with [] => s2l "-" | _ => show_bytes (g_nf9_marshal m) end)
+      ++ (if wj then s2l " J:" ++ (match n9_sets m with [] => s2l "-" | _ => show_bytes (g_nf9_marshal m) end) else [])
   end.
-Fixpoint run_nf9_history {C} (ops : cache_ops C) (c : C) (args : list tok) : list bytes :=
+Fixpoint run_nf9_history {C} (wj : bool) (ops : cache_ops C) (c : C) (args : list tok) : list bytes :=
   match args with
   | TBytes addr :: TBytes p :: rest =>
       match g_nf9_decode ops c addr p with
-      | Ok (c', d) => show_nf9_result d :: run_nf9_history ops c' rest
+      | Ok (c', d) => show_nf9_result wj d :: run_nf9_history wj ops c' rest
       | Err _ => [s2l "ERR?"]
       | Panic => [s2l "PANIC"]
       | Hang => [s2l "HANG"]
       end
   | _ => []
   end.
-Definition cmd_nf9h (args : list tok) : bytes := intercalate hist_sep (run_nf9_history cc_ops empty_ccache args).
-Definition cmd_nf9h_abs (args : list tok) : bytes := intercalate hist_sep (run_nf9_history am_ops [] args).
+Definition cmd_nf9h (args : list tok) : bytes := intercalate hist_sep (run_nf9_history true cc_ops empty_ccache args).
+Definition cmd_nf9h_abs (args : list tok) : bytes := intercalate hist_sep (run_nf9_history true am_ops [] args).
 
 (* ---------- sFlow (C07, C18, C01, C02) ---------- *)
 Definition g_sf_decode :=
@@ -204,6 +204,122 @@ Fixpoint sflow_args (args : list tok) (filter : list Z) : bytes :=
   end.
 Definition cmd_sflow (args : list tok) : bytes := sflow_args args [].
 
+(* ---------- cache file (C11) ---------- *)
+Fixpoint lex_leb (a b : bytes) : bool :=
+  match a, b with
+  | [], _ => true
+  | _, [] => false
+  | x :: a', y :: b' => if x <? y then true else if y <? x then false else lex_leb a' b'
+  end.
+Fixpoint ins_sorted (x : bytes * bytes) (l : list (bytes * bytes)) : list (bytes * bytes) :=
+  match l with
+  | [] => [x]
+  | h :: t => if lex_leb (fst x) (fst h) then x :: l else h :: ins_sorted x t
+  end.
+(* sorted "hexkey:tid:nfields:nscope" of everything the cache holds *)
+Definition cache_digest (c : ccache) : bytes :=
+  let items := flat_map (fun s => match s with
+                                  | Some (Some m) => map (fun kt => (show_hex (fst kt),
+                                       show_hex (fst kt) ++ s2l ":" ++ show_Z (t_id (snd kt)) ++ s2l ":" ++ show_Z (len (t_fields (snd kt)))
+                                       ++ s2l ":" ++ show_Z (len (t_scope (snd kt))))) m
+                                  | _ => [] end) c in
+  intercalate (s2l ",") (map snd (fold_right ins_sorted [] items)).
+
+(* a template in the case files: tid fcount scount nscope nfields, then the specifiers (id len pen) *)
+Fixpoint parse_specs (n : nat) (l : bytes) : list fspec * bytes :=
+  match n with
+  | O => ([], l)
+  | S k => let '(r, rest) := parse_specs k (skipn 8 l) in
+           ({| f_id := be (firstn 2 l); f_len := be (firstn 2 (skipn 2 l)); f_pen := be (firstn 4 (skipn 4 l)) |} :: r, rest)
+  end.
+Definition parse_tpl (l : bytes) : template :=
+  let w i := be (firstn 2 (skipn i l)) in
+  let '(sc, rest) := parse_specs (Z.to_nat (w 6%nat)) (skipn 10 l) in
+  let '(fs, _) := parse_specs (Z.to_nat (w 8%nat)) rest in
+  {| t_id := w 0%nat; t_fcount := w 2%nat; t_fields := fs; t_scount := w 4%nat; t_scope := sc |}.
+
+Fixpoint parse_entries (ts : list tok) (acc : tmap) : tmap * list tok :=
+  match ts with
+  | TBytes k :: TBytes t :: rest => parse_entries rest (acc ++ [(k, parse_tpl t)])
+  | TSym _ :: rest => (acc, rest)          (* E *)
+  | _ => (acc, ts)
+  end.
+Fixpoint parse_shards (fuel : nat) (ts : list tok) : ccache * list tok :=
+  match fuel with
+  | O => ([], ts)
+  | S k =>
+    match ts with
+    | t :: rest =>
+      if sym_is t "N" then let '(c, r) := parse_shards k rest in (None :: c, r)
+      else if sym_is t "M" then let '(c, r) := parse_shards k rest in (Some None :: c, r)
+      else if sym_is t "S" then
+        let '(m, r1) := parse_entries rest [] in
+        let '(c, r) := parse_shards k r1 in (Some (Some m) :: c, r)
+      else ([], ts)
+    | [] => ([], [])
+    end
+  end.
+
+Fixpoint split_at_sym (s : string) (ts : list tok) : list tok * list tok :=
+  match ts with
+  | [] => ([], [])
+  | t :: rest => if sym_is t s then ([], rest) else let '(a, b) := split_at_sym s rest in (t :: a, b)
+  end.
+
+Definition run_hist (proto : tok) (c : ccache) (h : list tok) : bytes :=
+  if sym_is proto "ipfix" then intercalate hist_sep (run_ipfix_history false cc_ops c h)
+  else intercalate hist_sep (run_nf9_history false cc_ops c h).
+
+(* the cache after a history (for the save/load round trip) *)
+Fixpoint cache_after_ipfix (c : ccache) (args : list tok) : ccache :=
+  match args with
+  | TBytes addr :: TBytes p :: rest =>
+      match g_ipfix_decode cc_ops c addr p with Ok (c', _) => cache_after_ipfix c' rest | _ => c end
+  | _ => c
+  end.
+Fixpoint cache_after_nf9 (c : ccache) (args : list tok) : ccache :=
+  match args with
+  | TBytes addr :: TBytes p :: rest =>
+      match g_nf9_decode cc_ops c addr p with Ok (c', _) => cache_after_nf9 c' rest | _ => c end
+  | _ => c
+  end.
+
+(* cachedoc <proto> <file> D <doc> H <history> *)
+Definition cmd_cachedoc (args : list tok) : bytes :=
+  match args with
+  | proto :: _ :: rest =>
+    let '(_, r1) := split_at_sym "D" rest in
+    let '(dtoks, hist) := split_at_sym "H" r1 in
+    let d : doc := match dtoks with
+                   | TInt n :: shards => Some (fst (parse_shards (length shards) shards), n)
+                   | _ => None
+                   end in
+    let c := get_cache d in
+    s2l "T:" ++ cache_digest c ++ s2l " | " ++ run_hist proto c hist
+  | _ => s2l "BADARGS"
+  end.
+
+(* cachert <proto> FULL|PREFIXES S <setup> H <history> *)
+Definition cmd_cachert (args : list tok) : bytes :=
+  match args with
+  | proto :: mode :: rest =>
+    let '(_, r1) := split_at_sym "S" rest in
+    let '(setup, hist) := split_at_sym "H" r1 in
+    if sym_is mode "OVER" then
+      (* S <big setup> M <small setup> H <history>: the file written last is the small cache *)
+      let '(_, rm) := split_at_sym "M" rest in
+      let '(small, h2) := split_at_sym "H" rm in
+      let c0 := if sym_is proto "ipfix" then cache_after_ipfix empty_ccache small else cache_after_nf9 empty_ccache small in
+      let c := get_cache (dump_doc c0) in
+      s2l "T:" ++ cache_digest c ++ s2l " | " ++ run_hist proto c h2
+    else if sym_is mode "FULL" then
+      let c0 := if sym_is proto "ipfix" then cache_after_ipfix empty_ccache setup else cache_after_nf9 empty_ccache setup in
+      let c := get_cache (dump_doc c0) in
+      s2l "T:" ++ cache_digest c ++ s2l " | " ++ run_hist proto c hist
+    else s2l "PREFIXES allfresh=1"    (* every proper prefix is unparsable: get_cache None = the fresh cache *)
+  | _ => s2l "BADARGS"
+  end.
+
 Definition dispatch (cmd : bytes) (args : list tok) : bytes :=
   if list_eqb cmd (s2l "reader") then cmd_reader args
   else if list_eqb cmd (s2l "infomodel") then cmd_infomodel args
@@ -212,5 +328,8 @@ Definition dispatch (cmd : bytes) (args : list tok) : bytes :=
   else if list_eqb cmd (s2l "ipfixh-abs") then cmd_ipfixh_abs args
   else if list_eqb cmd (s2l "nf9h") then cmd_nf9h args
   else if list_eqb cmd (s2l "sflow") then cmd_sflow args
+  else if list_eqb cmd (s2l "cachedoc") then cmd_cachedoc args
+  else if list_eqb cmd (s2l "cachert") then cmd_cachert args
+  else if list_eqb cmd (s2l "cachebytes") then s2l "SKIP"
   else if list_eqb cmd (s2l "nf9h-abs") then cmd_nf9h_abs args
   else s2l "UNKNOWN-COMMAND".
